@@ -164,6 +164,23 @@ inline void add_module_ops(std::vector<LsmOp>& ops, const std::vector<uint64_t>&
       ops.push_back(op);
     }
   }
+  // inverse DFT of crafted DFT vectors whose coefficients are exact half-integer ties or lie in the top binades of the big-coefficient
+  // range (a constant DFT vector c gives the polynomial c exactly): which way a tie goes, or which conversion kernel serves the large
+  // magnitudes, must not depend on what was called before
+  if (!salt) for (uint64_t N : Ns) {
+    if (N > 2048) continue;
+    MODULE* mod = get_module(N, FFT64, CFG_NATIVE);
+    LsmOp op; op.name = sfmt("vec_znx_idft|fft64|N=%llu|constant DFT vectors: ties and large magnitudes", (unsigned long long)N); op.family = "module"; op.warm_key = "";
+    op.run = [mod, N] {
+      static const double C[6] = {2.5, -3.5, 0.5, 0x1p51 + 12345.0, -(0x1p51 + 4097.0), 0x1p50 + 0.5};
+      GBuf d(6 * N * 8, 8), b(6 * N * 8, 16), t(vec_znx_idft_tmp_bytes(mod) + 64, 0);
+      for (int l = 0; l < 6; ++l) for (uint64_t j = 0; j < N; ++j) d.as<double>()[l * N + j] = j < N / 2 ? C[l] : 0.0;  // real parts c, imaginary parts 0
+      vec_znx_idft(mod, (VEC_ZNX_BIG*)b.p, 6, (const VEC_ZNX_DFT*)d.p, 6, t.p);
+      uint64_t h = hash_buf(b);
+      vec_znx_idft_tmp_a(mod, (VEC_ZNX_BIG*)b.p, 6, (VEC_ZNX_DFT*)d.p, 6);
+      return hash_buf(b, h); };
+    ops.push_back(op);
+  }
   gen_salt() = 0;
 }
 inline void add_table_ops(std::vector<LsmOp>& ops) {
